@@ -28,6 +28,15 @@ def gen(rng, tier):
     poolname = rng.choice(['GRID', 'GRID', 'FLOAT', 'NASTY'])
     pool = {'GRID': GRID, 'FLOAT': FLOAT, 'NASTY': NASTY}[poolname]
     t0 = rng.choice([0, 0, 1, 0.5, 10]) if poolname != 'NASTY' else rng.choice([0, 1.0000000000000002, 0.1, 7.3])
+    r0 = rng.random()
+    if r0 < 0.08:
+        # a clock with a negative origin and decimal timeouts whose expiry is a round number (-0.57 + 1.57)
+        poolname, t0 = 'NEG', rng.choice([-0.57, -0.09, -1.13, -0.57])
+        pool = [1.57, 0.34, 9.13, 0.09, 1.13, 2.57]
+    elif r0 < 0.14:
+        # a clock so large that small timeouts are below its resolution (epoch seconds and 100 ns)
+        poolname, t0 = 'ABSORB', 1.7e9
+        pool = [1e-7, 1e-8, 0.5, 1, 2]
     nt = rng.choice([1, 1, 2])
     timers = []
     for k in range(nt):
@@ -64,11 +73,29 @@ def gen(rng, tier):
         ctls.append({'id': 'c%d' % c, 'ops': ops})
     order = [t['id'] for t in timers] + [c['id'] for c in ctls]
     rng.shuffle(order)
+    if poolname == 'ABSORB':
+        for t in timers:
+            t['auto'] = False
     return {'engine': 'T', 'pool': poolname, 't0': t0, 'timers': timers, 'ctls': ctls, 'order': order,
             'horizon': t0 + rng.choice([6, 10, 15])}
 
 
+def _absorbed(case, x):
+    # a duration below the resolution of the clock at the end of the run
+    h = abs(case.get('horizon', 0)) + abs(case.get('t0', 0)) + 1.0
+    return h + x == h
+
+
 def valid(case):
+    # an auto-restart timer whose period is below the clock's resolution fires for ever within one instant (as any
+    # `while True: yield env.timeout(tiny)` would): legal, but not a run that ends
+    tiny = any(_absorbed(case, t.get('timeout', 1)) for t in case.get('timers', [])) or \
+        any(_absorbed(case, op[1]) for t in case.get('timers', []) for ops in (t.get('incb') or {}).values()
+            for op in ops if op and op[0] == 'restart' and len(op) > 1) or \
+        any(_absorbed(case, op[3]) for c in case.get('ctls', []) for op in c.get('ops', [])
+            if len(op) > 3 and op[1] == 'restart')
+    if tiny and any(t.get('auto') for t in case.get('timers', [])):
+        return False
     for t in case.get('timers', []):
         if not (t.get('timeout', 0) > 0):
             return False
